@@ -37,6 +37,7 @@ binaries and projects the files.
 import json
 import os
 import random
+import re
 import shutil
 from collections import deque
 from concurrent.futures import ThreadPoolExecutor
@@ -113,8 +114,8 @@ def sort_replay(ck, bdir, lines):
         p = ln.split()
         got = [int(x) for x in p[1:] if x != "G"]
         if p[0] != "R" or "G" in p or got != cases[k]:
-            ck.violation("sort_replace(arr=%s, n=%d, old=%d, new=%d) left arr=%s%s; the specification "
-                         "(sorted multiset) requires %s" % (list(k[0]), len(k[0]), k[1], k[2], got,
+            ck.violation("sort_replace breaks the sorted multiset: sort_replace(arr=%s, n=%d, old=%d, new=%d) left "
+                         "arr=%s%s; the specification requires %s" % (list(k[0]), len(k[0]), k[1], k[2], got,
                                                             " and wrote outside the array" if "G" in p else "",
                                                             cases[k]),
                          {"case.json": {"arr": list(k[0]), "old": k[1], "new": k[2], "got": got,
@@ -199,8 +200,9 @@ def sort_replay(ck, bdir, lines):
             ck.case("M%d:%s" % (h[0]["n"], steps), nontrivial=len(h) >= 2)
             if bad:
                 i, why = bad
-                ck.violation("sort module (n=%d inputs) after the input changes %s (input index, new value; -1 = NULL), "
-                             "step %d: %s" % (h[0]["n"], steps[:i + 1], i, why),
+                ck.violation("sort module (sort_init/sort_set_input/outputs) disagrees with the specification: n=%d "
+                             "inputs, input changes %s (input index, new value; -1 = NULL), step %d: %s"
+                             % (h[0]["n"], steps[:i + 1], i, why),
                              {"history.json": {"n": h[0]["n"], "steps": steps, "failed_step": i, "why": why}},
                              sig="sortmod:" + why.split()[0])
     ck.cov["traces_validated_against_impl"] += len(hist) + nrep
@@ -280,6 +282,95 @@ def run_one(bdir, system, mc, gids, events):
         shutil.rmtree(d, ignore_errors=True)
 
 
+MAX_REJECT = 2      # rejected executions isolated per chunk (each one costs a TLC run)
+
+
+def validate(execs, nchunks=8):
+    """Trace validation with BreakdownTrace (AllowStale).  One TLC run per chunk of concatenated
+    executions; the spec prints <<"STALE", line>> where the rows are only explained by a stale mux
+    selection.  When a chunk is not consumed completely the execution holding the first
+    unexplained record is reported and validation resumes after it (at most MAX_REJECT times per
+    chunk, the rest is then left unvalidated and counted).
+    Returns (accepted indices, {index: first stale record}, rejected, skipped, states, generated)."""
+    n = len(execs)
+    size = max(1, (n + nchunks - 1) // nchunks)
+    chunks = [list(range(i, min(i + size, n))) for i in range(0, n, size)]
+
+    def run(idx):
+        d = core.mkscratch("bdtv")
+        try:
+            path = os.path.join(d, "trace.ndjson")
+            starts = []
+            pos = 1
+            with open(path, "w") as f:
+                for i in idx:
+                    starts.append(pos)
+                    for rec in execs[i]:
+                        f.write(json.dumps(rec) + "\n")
+                        pos += 1
+            r = core.tlc("BreakdownTrace", "BreakdownTrace.cfg", workers=1, env={"TRACE": path},
+                         tags=("STALE",), timeout=1800)
+            total = pos - 1
+            m = re.search(r'<<"CONSUMED", (\d+), (\d+)>>', r.out)
+            if m:
+                consumed = int(m.group(1))
+            elif r.violated and r.violated != "property":
+                consumed = max(0, len(re.findall(r"^State \d+:", r.out, re.M)) - 2)
+            else:
+                raise core.MachineryError("trace validation failed to run: %s\n%s" % (r.error, r.out[-2500:]))
+            full = consumed == total and r.rc == 0 and r.violated is None
+            st = {}
+            for tg, line in r.lines:
+                k = max(j for j in range(len(idx)) if starts[j] <= int(line))
+                off = int(line) - starts[k]
+                if idx[k] not in st or off < st[idx[k]]:
+                    st[idx[k]] = off
+            bad = None
+            if not full:
+                nxt = min(consumed + 1, total)
+                k = max(j for j in range(len(idx)) if starts[j] <= nxt)
+                bad = (k, nxt - starts[k])
+            return full, bad, st, r
+        finally:
+            shutil.rmtree(d, ignore_errors=True)
+
+    def do(idx):
+        acc, stale_at, rej = [], {}, []
+        states = gen = 0
+        pending = list(idx)
+        while pending:
+            full, bad, st, r = run(pending)
+            states += r.states
+            gen += r.generated
+            if full:
+                acc += pending
+                stale_at.update(st)
+                pending = []
+                break
+            k, line = bad
+            acc += pending[:k]
+            stale_at.update({i: o for i, o in st.items() if i in pending[:k]})
+            i = pending[k]
+            line = min(line, len(execs[i]) - 1)
+            rej.append((i, line, execs[i][line], r.out[-1800:], r.violated))
+            pending = pending[k + 1:]
+            if len(rej) >= MAX_REJECT:
+                break
+        return acc, stale_at, rej, pending, states, gen
+
+    outs = core.pmap(do, chunks, threads=True)
+    accepted, stale_at, rejected, skipped = [], {}, [], []
+    states = gen = 0
+    for acc, st, rej, pend, s_, g_ in outs:
+        accepted += acc
+        stale_at.update(st)
+        rejected += rej
+        skipped += pend
+        states += s_
+        gen += g_
+    return accepted, stale_at, rejected, skipped, states, gen
+
+
 def random_walks(g, rng, count, maxlen):
     """seeded random walks over accepted transitions of the exported graph + legal completion"""
     out = []
@@ -306,7 +397,15 @@ def random_walks(g, rng, count, maxlen):
 def conformance(ck, bdir, g, mc, tier, label, rng):
     system = emuhist.sys_with_rank(g.system)
     gids = gids_for(bdir, mc)
-    hs = g.histories(limit=(1100 if tier == "quick" else None), rng=rng)
+    hs = g.histories(limit=None)
+    if tier == "quick":
+        # every model transition that changes something first, a sample of the refusals
+        hs.sort(key=lambda x: json.dumps(x[1], sort_keys=True))
+        acc = [x for x in hs if x[0] == "accept"]
+        oth = [x for x in hs if x[0] != "accept"]
+        rng.shuffle(acc)
+        rng.shuffle(oth)
+        hs = acc[:700] + oth[:120]
     hs += random_walks(g, rng, 120 if tier == "quick" else 2000, 40 if tier == "quick" else 120)
 
     results = core.pmap(lambda x: run_one(bdir, system, mc, gids, x[1]), hs)
@@ -322,35 +421,24 @@ def conformance(ck, bdir, g, mc, tier, label, rng):
             ck.violation("%s: the breakdown trace of an accepted history cannot be projected: %s\nhistory: %s"
                          % (label, perr, json.dumps(events)),
                          {"history.json": events, "stderr.txt": r.text[-4000:]}, sig="breakdown:projection")
-    chunk = max(40, len(execs) // 8 + 1)
-    strict = tv.validate("BreakdownTrace", "BreakdownTrace_Strict.cfg", execs, None, chunk=chunk, parallel=8,
-                         max_reject=10 ** 9)
-    ck.cov["states"] += strict.states
-    ck.cov["transitions"] += strict.generated
-    redo = [x[0] for x in strict.rejected]
-    stale = []
-    rejected = []
-    if redo:
-        lenient = tv.validate("BreakdownTrace", "BreakdownTrace.cfg", [execs[i] for i in redo], None,
-                              chunk=max(20, len(redo) // 8 + 1), parallel=8)
-        ck.cov["states"] += lenient.states
-        ck.cov["transitions"] += lenient.generated
-        stale = [redo[i] for i in lenient.accepted]
-        rejected = [(redo[i], line, rec, tail, inv) for (i, line, rec, tail, inv) in lenient.rejected]
-    ck.cov["traces_validated_against_impl"] += len(strict.accepted) + len(stale)
+    accepted, stale_at, rejected, skipped, st, gen = validate(execs)
+    ck.cov["states"] += st
+    ck.cov["transitions"] += gen
+    stale = sorted(stale_at)
+    ck.cov["traces_validated_against_impl"] += len(accepted)
     first_stale = None
     if stale:
-        by = {x[0]: x for x in strict.rejected}
-        i = min(stale, key=lambda k: len(hs[k][1]))
-        first_stale = {"history": hs[i][1], "record_index": by[i][1],
-                       "event": {k: by[i][2].get(k) for k in ("th", "m", "a")},
-                       "rows_shown": by[i][2].get("rows")}
+        i = min(stale, key=lambda k: (len(hs[k][1]), stale_at[k]))
+        rec = execs[i][stale_at[i]]
+        first_stale = {"history": hs[i][1], "record_index": stale_at[i],
+                       "event": {k: rec.get(k) for k in ("th", "m", "a")},
+                       "rows_shown": rec.get("rows"), "cpu_cells": [c for c in rec.get("view", []) if c[0] == "c"]}
     ck.notes.setdefault("conformance", []).append(
         {"model": label, "histories": len(hs), "by_kind": kinds,
-         "accepted_with_the_tri_formula": len(strict.accepted),
-         "accepted_only_with_stale_mux_selection": len(stale),
+         "accepted_by_spec": len(accepted),
+         "of_which_need_the_stale_mux_selection": len(stale),
          "shortest_stale_example": first_stale,
-         "rejected_by_spec": len(rejected)})
+         "rejected_by_spec": len(rejected), "not_validated_after_rejections": len(skipped)})
     for (i, line, rec, tail, violated) in rejected:
         kind, events, t = hs[i]
         recs, r, perr = results[i]
